@@ -116,6 +116,69 @@ func PanicOK()              {}
 func Symbolic() bool        { return false }
 func Concrete(x int) int    { return x }
 
+// Attacker returns an attacker-chosen string of n bytes. Inside the engine it
+// is an arbitrary symbolic string. In a native replay the model's string is
+// re-expressed relative to the honest bytes: stretches the model copied from
+// the (model's) honest string are copied from the real honest string instead,
+// everything else is taken literally.
+func Attacker(name string, honest []byte, n int) []byte {
+	load()
+	ym := Bytes(name, n)
+	hm := Bytes(name+".honest", len(honest))
+	if _, ok := m.Bytes[name+".honest"]; !ok {
+		return ym
+	}
+	out := make([]byte, 0, n)
+	for j := 0; j < n; {
+		// longest stretch of ym[j:] found in hm, preferring the same offset
+		best, at := 0, -1
+		try := func(k int) {
+			l := 0
+			for j+l < n && k+l < len(hm) && ym[j+l] == hm[k+l] {
+				l++
+			}
+			if l > best {
+				best, at = l, k
+			}
+		}
+		if j < len(hm) {
+			try(j)
+		}
+		for k := 0; k < len(hm) && best < 4; k++ {
+			try(k)
+		}
+		if best >= 4 || (best > 0 && at == j) {
+			out = append(out, honest[at:at+best]...)
+			j += best
+		} else {
+			out = append(out, ym[j])
+			j++
+		}
+	}
+	return out
+}
+
+// ChunkSize is the STREAM chunk size: 65536 natively, the rebased size inside the engine.
+func ChunkSize() int { return 65536 }
+
+// RunFile loads one model file and runs the harness it names.
+func RunFile(path string, hs map[string]func()) (name, verdict string) {
+	b, err := os.ReadFile(path)
+	if err != nil {
+		return "", ""
+	}
+	m = model{}
+	if err := json.Unmarshal(b, &m); err != nil {
+		return "", ""
+	}
+	once.Do(func() {})
+	h, ok := hs[m.Harness]
+	if !ok {
+		return "", ""
+	}
+	return m.Harness, Run(h)
+}
+
 // Run executes a harness natively and reports what happened:
 // "reproduced: <msg>", "void: ...", or "held".
 func Run(h func()) (verdict string) {
